@@ -159,6 +159,7 @@ type App struct {
 	Inboxes     map[string][]string // inbox IRI -> activity ids, newest first
 	Outboxes    map[string][]string
 	StoredInbox map[string]bool   // actors for which InboxForActor answers actor+"/inbox"
+	SharedInbox map[string]string // actors for which InboxForActor answers this inbox (several actors may share one)
 	Remote      map[string][]byte // documents served by Transport.Dereference
 	NextID      int
 	ReqBase     int // number of requests served before this App value was cloned (keeps ids unique)
@@ -242,6 +243,12 @@ func (a *App) Clone() *App {
 	b.Inboxes = cloneLists(a.Inboxes)
 	b.Outboxes = cloneLists(a.Outboxes)
 	b.StoredInbox = cloneSet(a.StoredInbox)
+	if a.SharedInbox != nil {
+		b.SharedInbox = map[string]string{}
+		for k, v := range a.SharedInbox {
+			b.SharedInbox[k] = v
+		}
+	}
 	b.Remote = make(map[string][]byte, len(a.Remote))
 	for k, v := range a.Remote {
 		b.Remote[k] = v
